@@ -48,12 +48,16 @@ static int peer_shut;
 static unsigned strip_mask, add_mask;
 static unsigned accepted;
 static int wbig_done;                /* a large write is (or was) queued towards the peer */
+static unsigned nsys;                /* read/recvmsg calls made on the stream's descriptor */
+static size_t consumed;              /* bytes the kernel handed to the library so far */
+static int saw_read0;                /* a read/recvmsg on the descriptor returned 0 */
 
 static unsigned char pat(size_t p) { return (unsigned char) ((p * 7u + 3u) % 251u); }
 
 /* ------------------------------------------------------------------ interposition */
 static ssize_t scripted(int is_msg, void* buf, size_t cap, struct msghdr* msg, int flags) {
   size_t lim; ssize_t r; int e;
+  nsys++;
   if (is_msg) cap = msg->msg_iov[0].iov_len;
   lim = cap;
   if (envh < envt) {
@@ -79,6 +83,8 @@ static ssize_t scripted(int is_msg, void* buf, size_t cap, struct msghdr* msg, i
     e = errno;
   }
   if (!quiet) printf("env read cap=%zu -> %ld\n", cap, r >= 0 ? (long) r : (long) -e);
+  if (r > 0) consumed += (size_t) r;
+  if (r == 0 && cap > 0) saw_read0 = 1;
   errno = e;
   return r;
 }
@@ -338,6 +344,27 @@ int main(void) {
       in_run = 1;
       uv_run(&loop, UV_RUN_NOWAIT);
       in_run = 0;
+    } else if (!strcmp(line, "drain")) {
+      /* run the loop (each iteration is an ordinary `op run`) until the stream makes no more progress: two
+       * consecutive iterations without alloc_cb, read_cb or a read/recvmsg call, with a real poll() in between so
+       * that bytes still in flight on a loopback connection have arrived.  `#drained` tells the monitor that whatever
+       * reading the library still owes (pending bytes, the terminal UV_EOF/error) has had its chance. */
+      unsigned it = 0, idle = 0, capped = 0;
+      while (idle < 2) {
+        unsigned a0 = nalloc, c0 = ncb, r0 = nsys;
+        if (it >= 8192) { capped = 1; break; }
+        printf("op run\n");
+        in_run = 1;
+        uv_run(&loop, UV_RUN_NOWAIT);
+        in_run = 0;
+        it++;
+        if (a0 == nalloc && c0 == ncb && r0 == nsys) {
+          idle++;
+          /* something is still owed by the kernel (bytes, or the end of the stream): let it arrive */
+          if (idle < 2 && (consumed < pos || (peer_shut && !saw_read0))) wait_ready();
+        } else idle = 0;
+      }
+      printf("#drained %u capped=%u\n", it, capped);
     } else if (!strncmp(line, "peer ", 5)) {
       char k[16]; unsigned long n = 0;
       int c = sscanf(line + 5, "%15s %lu", k, &n);
